@@ -102,6 +102,7 @@ class Translator:
         self.externs_called = set()
         self.out_funcs = {}
         self.tmp = 0
+        self.local_names = {}      # decl id -> python name (locals re-declared in sibling scopes get a numeric suffix)
         self.collect()
 
     # ------------------------------------------------------------------ collection
@@ -215,6 +216,8 @@ class Translator:
     def rename(self, name, ref=None):
         if ref is not None and ref.get("id") in self.statics:
             return self.statics[ref["id"]]
+        if ref is not None and ref.get("id") in self.local_names:
+            return self.local_names[ref["id"]]
         return name
 
     def enum_value(self, ref):
@@ -539,8 +542,13 @@ class Translator:
                 ctx["globals_used"].add(g)
                 continue
             if name in ctx["declared"] and ctx["declared"][name] != d["id"]:
-                raise Untranslatable(f"local {name} declared twice in one function (shadowing)")
+                # the same identifier declared again in another (sibling or nested) scope: a distinct variable
+                k = 2
+                while f"{name}__{k}" in ctx["declared"]:
+                    k += 1
+                name = f"{name}__{k}"
             ctx["declared"][name] = d["id"]
+            self.local_names[d["id"]] = name
             if init:
                 out.append(f"{ind}{name} = {self.init_value(t, init[0])}")
             else:
@@ -703,7 +711,13 @@ class Translator:
         cl = self.counting_loop(init, cond, inc, body) if init and cond and inc and body else None
         if cl:
             name, lo, hi, d = cl
+            if name in ctx["declared"] and ctx["declared"][name] != d["id"]:
+                k = 2
+                while f"{name}__{k}" in ctx["declared"]:
+                    k += 1
+                name = f"{name}__{k}"
             ctx["declared"][name] = d["id"]
+            self.local_names[d["id"]] = name
             ctx["loops"] += 1
             ctx["for_inc"].append([])
             body_lines = self.block(body, ind + "    ", ctx)
